@@ -46,8 +46,9 @@ element of the trace and the invariant is checked AT that element (so it holds w
   handles.derived_statistics_describe_own_row_groups[int|slice]   the real `statistics` property run on the handle __getitem__ built,
         with the parent's cache possibly filled, returns statistics(<new handle>) on every path
   statistics.cache_is_only_set_from_own_row_groups (ast) / statistics.property_returns_cache_or_own_statistics
-  statistics.cache_dropped_when_row_groups_change[<method>]   (C04 selection only) a method that calls self._set_attrs() on an existing
-        handle (remove_row_groups, write_row_groups) resets the cache - refuted on this tree = known finding C04-P-statistics-cache-stale-...
+  statistics.cache_dropped_when_row_groups_change[<method>]   a method that calls self._set_attrs() on an existing
+        handle (remove_row_groups, write_row_groups) resets the cache - itself or through a self-method it calls (the reset lives in
+        _set_attrs since /repo 890afcf; found by following the calls in the real source, nothing hard-coded)
   handles.state_roundtrip_keeps_dtype_answers.<key>   the same per key for __setstate__(__getstate__()) (copy / pickle)
   handles.dtype_table_not_rederived_when_inherited   the real _dtypes with _base_dtype set assigns neither _base_dtype nor tz
   handles.state_roundtrip_shares_open_fn_footer  object.__new__(ParquetFile).__setstate__(pf.__getstate__()) (what copy.copy and
@@ -1504,6 +1505,23 @@ def rg_dependent_attrs(tree):
     return {k: sorted(v) for k, v in dep.items()}
 
 
+def set_attrs_closure(funcs):
+    """_set_attrs and the self-methods it calls at its top level (the re-derivation pass)"""
+    seen = []
+
+    def visit(name):
+        f = funcs.get("ParquetFile." + name)
+        if f is None or name in seen:
+            return
+        seen.append(name)
+        for st in f.tree.body:
+            if isinstance(st, ast.Expr) and isinstance(st.value, ast.Call) and isinstance(st.value.func, ast.Attribute) and \
+                    isinstance(st.value.func.value, ast.Name) and st.value.func.value.id == "self":
+                visit(st.value.func.attr)
+    visit("_set_attrs")
+    return seen
+
+
 def recomputed_by_set_attrs(funcs):
     """attributes assigned unconditionally (top level) by _set_attrs and by the self-methods it calls at its top level"""
     out, seen = set(), set()
@@ -1527,12 +1545,16 @@ def recomputed_by_set_attrs(funcs):
 
 
 def row_group_caches(funcs, tree):
-    """row-group dependent attributes that are neither part of the handle's declared (dataset-level) state nor re-derived by
-    _set_attrs: the lazily filled caches a derived handle must not take over"""
+    """row-group dependent attributes that are not part of the handle's declared (dataset-level) state and are FILLED by a method
+    outside the re-derivation pass (_set_attrs and what it calls): the lazily filled caches.  Whether _set_attrs ALSO resets one
+    of them (as it does for _statistics since /repo 890afcf) does not take it off this list: the obligations look at the value
+    the new handle ends up with, after _set_attrs has run."""
     dep = rg_dependent_attrs(tree)
     primary = set(handle_state_keys(funcs)) | {"fmd"}
     rec = recomputed_by_set_attrs(funcs)
-    return {k: v for k, v in dep.items() if k not in primary and k not in rec}, dep, rec
+    closure = set(set_attrs_closure(funcs))
+    caches = {k: [m for m in v if m not in closure] for k, v in dep.items() if k not in primary}
+    return {k: v for k, v in caches.items() if v}, dep, rec
 
 
 SRC = {"tree": None}            # ast of api.py of this run (set by check)
@@ -1716,9 +1738,9 @@ def derived_cache_frame(res, eng, funcs, q, oid, tag):
         ok = v is None or v is ABSENT or isinstance(v, NoneV) or not same_value(v0, v)
         res.add(f"handles.derived_state_has_no_row_group_dependent_cache{tag}.{X}", PROVED if ok else REFUTED,
                 None if ok else {"attribute": X, "filled_lazily_by": where, "new_handle_holds": "the PARENT's " + describe(v0), "state": how,
-                                 "note": "computed from the parent's row groups, not re-derived by _set_attrs: the part answers with the whole"},
-                0.0, "trace", f"{X} (filled lazily from self.row_groups by {', '.join(where)}; not re-derived by _set_attrs) is absent from / None in "
-                "the state of pf[item], or was recomputed on the new handle: never the parent's value")
+                                 "note": "computed from the parent's row groups and neither reset nor re-derived by _set_attrs: the part answers with the whole"},
+                0.0, "trace", f"{X} (filled lazily from self.row_groups by {', '.join(where)}) is absent from / None in the state pf[item] ends up with "
+                "(not handed over, or reset / recomputed by _set_attrs on the new handle): never the parent's value")
     # every OTHER explicit key: declared state / footer / re-derived anyway / the parent's own value
     if sd is not None:
         primary, rec = set(handle_state_keys(funcs)) | {"fmd"}, recomputed_by_set_attrs(funcs)
@@ -1768,10 +1790,8 @@ def run_statistics_cache(ctx, funcs, timeout, in_place):
                          isinstance(v.args[0], ast.Name) and v.args[0].id == "self" and not v.keywords))
                     if not own:
                         bad.append(f"L{node.lineno}: {ast.unparse(node)[:80]}")
-        elif isinstance(node, ast.Dict):
-            for k, v in zip(node.keys, node.values):
-                if isinstance(k, ast.Constant) and k.value == "_statistics" and not (isinstance(v, ast.Constant) and v.value is None):
-                    bad.append(f"L{node.lineno}: state dict entry '_statistics': {ast.unparse(v)[:60]}")
+        # (a '_statistics' entry of a state dict is not a store by itself: what the receiving handle ends up with after __setstate__ /
+        #  _set_attrs is decided by handles.derived_state_has_no_row_group_dependent_cache / derived_statistics_describe_own_row_groups)
         elif isinstance(node, ast.Call) and isinstance(node.func, ast.Name) and node.func.id == "setattr" and len(node.args) == 3 and \
                 isinstance(node.args[1], ast.Constant) and node.args[1].value == "_statistics":
             bad.append(f"L{node.lineno}: {ast.unparse(node)[:80]}")
@@ -1834,9 +1854,9 @@ def run_statistics_cache(ctx, funcs, timeout, in_place):
 
 
 import re as _re
-C04_FAMILY = _re.compile(r"^(statistics\.|handles\.derived_state_|handles\.derived_statistics_|handles\.derived\[.*out_of_reach|statistics\.cache.*out_of_reach)")
+C04_FAMILY = _re.compile(r"^(statistics\.|handles\.derived_state_frame|handles\.derived_state_has_no_row_group_dependent_cache\[\w+\]\._statistics$|"
+                         r"handles\.derived_state_has_no_row_group_dependent_cache\[\w+\]$|handles\.derived_statistics_|handles\.derived\[.*out_of_reach)")
 CONSTRUCTORS = ("__init__", "_parse_header", "__setstate__", "_set_attrs", "__getitem__")
-FID_STALE = "C04-P-statistics-cache-stale-after-in-place-edit"
 
 
 def run_derived(ctx, funcs, timeout, kind):
@@ -2188,7 +2208,7 @@ def check(ctx, timeout, select=None):
         guarded(f"handles.derived[{kind}]", run_derived, ctx, funcs, timeout, kind)
     guarded("handles.state_roundtrip", run_state_roundtrip, ctx, funcs, timeout)
     guarded("handles.dtypes", run_dtypes_uses_inherited_table, ctx, funcs, timeout)
-    guarded("statistics.cache", run_statistics_cache, ctx, funcs, timeout, False)
+    guarded("statistics.cache", run_statistics_cache, ctx, funcs, timeout, True)
     for kind in ("root", "int", "slice"):
         guarded(f"count.derived[{kind}]", run_counts, ctx, funcs, timeout, kind)
     guarded("frame.helpers", run_helpers, ctx, funcs, used)
